@@ -883,6 +883,60 @@ func runVacuum(c *Case, id string) {
 						return
 					}
 				}
+				// with the node cache on: a vacuum that fails while it deletes (one DELETE refused) has
+				// removed some node objects already; whatever the cache remembers about them must not make a
+				// later commit skip storing them when the table returns to their content
+				if w.cache > 0 && c.Res.Status != "violated" {
+					k1, k2 := 9800+c.Index, 9850+c.Index
+					if stmt(0, "ins", k1, map[string]string{"a": "t:transient3"}) && stmt(0, "ins", k2, map[string]string{"a": "t:transient4"}) {
+						var withK1 []string
+						if d, err := A.conn.Dump(A.table); err == nil {
+							for _, row := range d {
+								if !strings.HasPrefix(row, fmt.Sprintf("i:%d|", k2)) {
+									withK1 = append(withK1, row)
+								}
+							}
+						}
+						f := fs3.Fault{Op: fs3.OpDel, KeyContain: "/node/", Skip: 1, Action: "error"}
+						if r.Bool() {
+							f = fs3.Fault{Op: fs3.OpDel, KeyContain: "/root/merged/", Action: "error"}
+						}
+						tick()
+						w.st.Client("w0").AddFault(f)
+						res, err := A.conn.Rows("select vacuum_error from s3db_vacuum('"+A.table+"', ?)", tstr(vclock+1000))
+						w.st.Client("w0").ClearFaults()
+						w.logf("w0 VACUUM with one refused DELETE (%s) -> %v %v", f.KeyContain, res, err)
+						c.Count("vacuums_with_a_refused_delete", 1)
+						for step, kk := range []int{k2, k1} {
+							if !stmt(0, "del", kk, nil) {
+								return
+							}
+							tick()
+							res, err := A.conn.Rows("select vacuum_error from s3db_vacuum('"+A.table+"', ?)", tstr(vclock+1000))
+							w.logf("w0 del k%d; VACUUM cutoff after everything -> %v %v", kk, res, err)
+							if err != nil || len(res) != 1 || res[0] != "NULL" {
+								fail("vacuum-error", fmt.Sprintf("s3db_vacuum after an earlier failed one reported %v %v", res, err))
+								return
+							}
+							want := before
+							if step == 0 {
+								want = withK1
+							}
+							fd, err := w.freshDump(true, fmt.Sprintf("fresh-after-failed-vacuum-%d", step))
+							if err != nil {
+								fail("unreadable-after-vacuum:fresh", "after a failed vacuum and a return to earlier content a fresh connection cannot read the table: "+err.Error())
+								return
+							}
+							if d := firstDiff(want, fd); d != "" {
+								fail("rows-changed:fresh", "after a failed vacuum and a return to earlier content a fresh connection reads other rows: "+d)
+								return
+							}
+							if !retainedOK(w.st.Snapshot(), "after a failed vacuum and a return to earlier content", nil) {
+								return
+							}
+						}
+					}
+				}
 				// the same across connections: another writer inserts a row; the vacuuming connection
 				// deletes it and vacuums (marker purged, the version with the row and its nodes
 				// reclaimed); the other writer refreshes and replays the very same insert (same write
@@ -943,13 +997,57 @@ func runVacuum(c *Case, id string) {
 				}
 			}
 		}
-		if c.Index%3 == 0 && muts > 0 && muts <= 60 {
+		// read failures matter where the vacuum has to protect versions it keeps: swept for every
+		// case in which a version other than the current one was created at or after the cutoff
+		keptHistoric := 0
+		for n, v := range g {
+			if n != preNames[0] && v.Created >= cutNanos {
+				keptHistoric++
+			}
+		}
+		doMut := c.Index%3 == 0 && muts > 0 && muts <= 60
+		doRead := keptHistoric > 0 && deletedObjs > 0
+		if doMut || doRead {
 			c.Count("crash_sweeps", 1)
-			for kk := 0; kk <= 2*muts; kk++ {
+			// a rehearsal on a cold connection counts the vacuum's requests, for the read-failure points
+			nreq, readFrom := 0, 0
+			{
+				st0 := newStore()
+				st0.Restore(pre)
+				vclockSet(st0.Name, vclock)
+				c0 := OpenConn("crash")
+				t0 := tname(c, "cr")
+				if c0.Create(TableSpec{Name: t0, Cols: "k PRIMARY KEY, a, b, c", Store: st0.Name, Client: "crash", Prefix: w.prefix, EPN: epn}) == nil {
+					st0.Client("crash").ResetCounters()
+					c0.Rows("select vacuum_error from s3db_vacuum('"+t0+"', ?)", tstr(cutoff))
+					nreq, _ = st0.Client("crash").Counters()
+				}
+				c0.Close()
+				dropStore(st0)
+				vclockDrop(st0.Name)
+				// the passes that protect kept versions come last before the deletions: of a long
+				// vacuum the last 60 requests are swept
+				if nreq > 60 {
+					readFrom = nreq - 60
+					nreq = 60
+				}
+				if !doRead {
+					nreq = 0
+				}
+			}
+			for kk := 0; kk <= 2*muts+nreq; kk++ {
 				// even: the process dies at mutating request k (k=0: before the first); odd: request k
-				// fails once and the same connection carries on
+				// fails once and the same connection carries on; beyond 2*muts: request number
+				// kk-2*muts fails once if it is a GET, and the connection carries on
 				k, errMode := kk/2, kk%2 == 1
-				if errMode && k == 0 {
+				readAt := 0
+				if kk > 2*muts {
+					k, errMode, readAt = 0, true, readFrom+kk-2*muts
+				}
+				if errMode && k == 0 && readAt == 0 {
+					continue
+				}
+				if readAt == 0 && !doMut {
 					continue
 				}
 				st2 := newStore()
@@ -968,6 +1066,8 @@ func runVacuum(c *Case, id string) {
 				cl := st2.Client("crash")
 				cl.ResetCounters()
 				switch {
+				case readAt > 0:
+					cl.AddFault(fs3.Fault{AtReq: readAt, Op: fs3.OpGet, Action: "error"})
 				case errMode:
 					cl.AddFault(fs3.Fault{AtMut: k, Action: "error"})
 				case k == 0:
@@ -984,6 +1084,10 @@ func runVacuum(c *Case, id string) {
 					cl.ClearFaults()
 					c.Count("failed_vacuum_points", 1)
 					crashWhere := fmt.Sprintf("vacuum (cutoff %s) whose mutating request %d of %d failed", tstr(cutoff), k, muts)
+					if readAt > 0 {
+						c.Count("failed_vacuum_points_read", 1)
+						crashWhere = fmt.Sprintf("vacuum (cutoff %s) whose request %d failed if it was a GET", tstr(cutoff), readAt)
+					}
 					d, err := conn.Dump(t)
 					if err != nil {
 						fail("failed-vacuum:connection-unreadable", crashWhere+": the same connection cannot read the table any more: "+err.Error())
@@ -1024,6 +1128,9 @@ func runVacuum(c *Case, id string) {
 				if errMode {
 					sigm, how = "failed-vacuum", fmt.Sprintf("vacuum (cutoff %s) whose mutating request %d of %d failed, then an insert on the same connection", tstr(cutoff), k, muts)
 				}
+				if readAt > 0 {
+					how = fmt.Sprintf("vacuum (cutoff %s) whose request %d failed if it was a GET, then an insert on the same connection", tstr(cutoff), readAt)
+				}
 				for _, ro := range []bool{true, false, true} {
 					c2 := OpenConn("rec")
 					t2 := tname(c, "rec")
@@ -1047,6 +1154,19 @@ func runVacuum(c *Case, id string) {
 					}
 				}
 				if okc {
+					// after the recovery opens the table is quiescent: one more read-write open writes nothing
+					l1 := st2.Listing(base)
+					c2 := OpenConn("rec")
+					s2 := spec
+					s2.Name, s2.Client = tname(c, "rec"), "recq"
+					c2.Create(s2)
+					c2.Close()
+					if d := firstDiff(l1, st2.Listing(base)); d != "" {
+						fail(sigm+":not-quiescent", fmt.Sprintf("%s: after three recovery opens a further read-write open still changes the bucket: %s", how, d))
+						okc = false
+					}
+				}
+				if okc {
 					// version objects that the interrupted vacuum was about to
 					// remove may still be listed while their nodes are gone;
 					// they are not retained versions
@@ -1057,7 +1177,7 @@ func runVacuum(c *Case, id string) {
 						}
 					}
 					_, gone := retentionRule(gf, walk.VersionNames(frozen, base, "current"), cutNanos)
-					skipAlsoCurrent = errMode
+					skipAlsoCurrent = errMode && readAt == 0
 					okc = retainedOK(frozen, how, gone)
 					skipAlsoCurrent = false
 				}
